@@ -139,8 +139,9 @@ def bounds_strategy():
 
 def strategy():
     from hypothesis import strategies as st
-    call = st.one_of(sh.call_strategy(), sh.call_strategy(extras=False),
-                     bounds_strategy(), bounds_strategy())
+    from vf.hist import weighted
+    call = weighted((4, sh.call_strategy()), (2, sh.call_strategy(extras=False)),
+                    (2, bounds_strategy()))
     return st.fixed_dictionaries({
         "prefix": st.lists(call, min_size=0, max_size=12),
         "final": st.sampled_from(SHUTDOWN)})
